@@ -13,6 +13,8 @@
 (*   RoundTripStrict (negative control, not in the default config): the     *)
 (*               printer of query.go on every text - TLC finds `. . [ . ]`  *)
 (*               and `import "" as a ;`                                     *)
+(*   (the next two not for the alphabets of token PIECES, "strings" and     *)
+(*   "comments", whose point is what gluing the pieces gives)               *)
 (*   Separate    the blank-separated text lexes to exactly the tokens fed   *)
 (*               (blanks separate and have no other effect)                 *)
 (*   TokensOnly  two texts with the same token sequence get the same parse  *)
@@ -52,8 +54,8 @@ Checks ==
       b == Parse(Respaced)
   IN [RoundTripRepaired |-> RepairedOK(a) /\ RepairedOK(g),
       RoundTripCode |-> CodeOK(a) /\ CodeOK(g),
-      Separate |-> Len(T) = Len(toks) + 1 /\ \A i \in 1..Len(toks) : T[i].s = toks[i],
-      TokensOnly |-> a.ok = b.ok /\ (a.ok => a.n = b.n)]
+      Separate |-> Profile \in PieceProfiles \/ (Len(T) = Len(toks) + 1 /\ \A i \in 1..Len(toks) : T[i].s = toks[i]),
+      TokensOnly |-> Profile \in PieceProfiles \/ (a.ok = b.ok /\ (a.ok => a.n = b.n))]
 
 AllInvariants == LET c == Checks IN c.RoundTripRepaired /\ c.RoundTripCode /\ c.Separate /\ c.TokensOnly
 RoundTripRepaired == Checks.RoundTripRepaired
